@@ -1755,8 +1755,8 @@ static int parse_loop_packets(struct scanner_s *scanner, cif_loop_tp *loop, stri
                                 }
                                 /* recover by synthesizing unknown values to fill the packet, and saving it */
                                 for (; column_index < column_count; column_index += 1) {
-                                    if ((names[column_index] != NULL)
-                                            && (result = cif_value_init(packet_values[column_index], CIF_UNK_KIND))
+                                    /* packet_values[] is indexed by header column; names[] omits duplicates */
+                                    if ((result = cif_value_init(packet_values[column_index], CIF_UNK_KIND))
                                                     != CIF_OK) {
                                         goto packets_end;
                                     }
